@@ -44,7 +44,7 @@ void harness(void)
     }
     {
         int nz = 1, changed = 1;
-        for (i = 0; i < trng_draws && i < 64; ++i) nz &= (trng_tape[i] != 0);
+        for (i = 0; i < trng_draws && i < 256; ++i) nz &= (trng_tape[i] != 0);
         for (i = 0; i < 5; ++i) changed &= !word_share_same(&st.M[i], &st0.M[i], SHARE);
         CHECK(SHARE == 0 || !nz || changed, "a tape of non-zero words changes this share of every word");
     }
@@ -109,7 +109,7 @@ void harness(void)
             for (i = 0; i < NW; ++i) { same &= (mk.k[i].S[SHARE] == mk0.k[i].S[SHARE]); changed &= (mk.k[i].S[SHARE] != mk0.k[i].S[SHARE]); }
             MUSTFAIL(same, "key share can stay unchanged for every tape (never refreshed)");
             (void)d0;
-            for (i = 0; i < trng_draws && i < 64; ++i) nz &= (trng_tape[i] != 0);
+            for (i = 0; i < trng_draws && i < 256; ++i) nz &= (trng_tape[i] != 0);
             CHECK(SHARE == 0 || !nz || changed, "a tape of non-zero words changes this share of every key word");
         }
     }
